@@ -16,12 +16,14 @@ import (
 	"go/ast"
 	"go/token"
 	"go/types"
+	"strings"
 
 	"gverif/core"
 )
 
 func Run(cfg core.Config, scope core.Scope) *core.Result {
 	res := core.NewResult("SWAP")
+	res.Rules = append(res.Rules, "CMPLX.parts: no complex(A, A) whose two identical arguments are built from real(x) or imag(x) of an operand")
 	res.Rules = append(res.Rules, "SWAP.cond: `if a OP b { x, y = y, x … }` with OP an ordering comparison of two variables and a swap of two variables: {a, b} and {x, y} share both variables or none")
 	res.Configs = append(res.Configs, cfg.String())
 	pkgs, err := core.Load(cfg, scope.Patterns...)
@@ -41,6 +43,40 @@ func Run(cfg core.Config, scope core.Scope) *core.Result {
 					continue
 				}
 				name := core.FuncName(pkg, fd)
+				// CMPLX.parts: complex(A, A)
+				ast.Inspect(fd.Body, func(n ast.Node) bool {
+					c, ok := n.(*ast.CallExpr)
+					if !ok || len(c.Args) != 2 {
+						return true
+					}
+					id, ok := c.Fun.(*ast.Ident)
+					if !ok || id.Name != "complex" {
+						return true
+					}
+					if _, isBuiltin := info.Uses[id].(*types.Builtin); !isBuiltin {
+						return true
+					}
+					res.Obligations++
+					res.Count("complex_constructions", 1)
+					if tv, ok := info.Types[c.Args[0]]; ok && tv.Value != nil {
+						return true
+					}
+					a, b := types.ExprString(c.Args[0]), types.ExprString(c.Args[1])
+					pure := true
+					ast.Inspect(c.Args[0], func(y ast.Node) bool {
+						if cc, ok := y.(*ast.CallExpr); ok {
+							if f, ok := cc.Fun.(*ast.Ident); !ok || (f.Name != "real" && f.Name != "imag" && f.Name != "float64" && f.Name != "float32") {
+								pure = false
+							}
+						}
+						return true
+					})
+					if a == b && pure && (strings.Contains(a, "real(") || strings.Contains(a, "imag(")) {
+						res.Add(core.Finding{Rule: "CMPLX.parts", Key: fmt.Sprintf("CMPLX.parts|%s|%s", name, a), Pos: core.Pos(c.Pos()), Func: name,
+							Msg: fmt.Sprintf("complex(%s, %s) builds both parts of the result from the same part of its operand: the other part of the input is dropped", a, b)})
+					}
+					return true
+				})
 				ast.Inspect(fd.Body, func(n ast.Node) bool {
 					is, ok := n.(*ast.IfStmt)
 					if !ok || len(is.Body.List) == 0 {
